@@ -640,6 +640,15 @@ func (c *Ctx) c18Batch(b BK) {
 			if ev := countersStartAtZero(p); ev != nil {
 				r.Bad("R18.3", op, "counter-not-zero", c.Pos(ev.Pos), "the per-entry counter reported by the metric does not start at 0", shortTrace(p))
 			}
+			// what is reported is counted where the entries are touched, not measured by a separate scan: Len() taken before (or
+			// after) the operation's own critical sections differs from the number of entries it removed / expired as soon as
+			// another goroutine writes in between
+			for _, ev := range p.Events {
+				if ev.Frame != nil && ev.Frame.Parent != nil && ev.Frame.InFunc("cache."+b.Name+".Len") {
+					r.Bad("R18.3", op, "count-from-separate-scan", c.Pos(ev.Pos), s.op+" runs Len() as a separate scan: the number it reports is not the number of entries its own critical sections touched", shortTrace(p))
+					break
+				}
+			}
 			if st == triUnknown || cnt[s.metric] != 1 || len(cnt) != 1 {
 				r.Bad("R18.3", op, "batch-metric", c.Pos(p.RetPos), fmt.Sprintf("%s emits %s, expected exactly one %s", s.op, fmtCounts(cnt), s.metric), shortTrace(p))
 				continue
